@@ -78,8 +78,11 @@ Definition check (c : case) : list string :=
   | Some o =>
       (if Bool.eqb (negb (Z.eqb (o_code o) 0)) (c_exit_nonzero c) then [] else ["exit-status"]) ++
       (if Z.eqb (o_code o) (c_exit_code c) then [] else ["exit-code"]) ++
-      (if Bool.eqb (o_submitted o) (c_json_present c) then [] else ["report-completeness"]) ++
-      (if Bool.eqb (o_outputs_created o) (c_json_exists c) then [] else ["report-file-creation"])
+      (* the severities the model was evaluated on come from the report: it must exist whenever the model says the
+         reports were submitted.  The other observations about the report (left absent / empty on an early error) are
+         facts of the model that the property does not speak about; they are not compared, so that e.g. validating the
+         flags before linting stays a harmless refactor. *)
+      (if o_submitted o && negb (c_json_present c) then ["report-missing"] else [])
   end.
 
 Fixpoint mismatches (cs : list case) : list (N * string) :=
